@@ -628,7 +628,7 @@ func trustedFor(s Spec, e Entry) bool {
 // nonTrivial implements the rule of the plan entry on the deciding list-header resolver.
 func nonTrivial(s Spec, w outcome) bool {
 	if s.Kind == rChain {
-		if w.member >= len(s.Subs) {
+		if w.member >= len(s.Subs) || s.Subs[w.member].Kind == rChain {
 			return false
 		}
 		return nonTrivial(s.Subs[w.member], w)
@@ -685,6 +685,10 @@ func classify(c *Case, w outcome, ambiguous, judgedPrefix bool) {
 			stats.Class(fmt.Sprintf("chain:decided-by-member-%d-of-%d", w.member+1, len(s.Subs)))
 			d = s.Subs[w.member]
 			stats.Class("chain:decider:" + d.Kind)
+			if d.Kind == rChain {
+				stats.Class("chain:a-member-is-itself-a-chain")
+				return
+			}
 		}
 	}
 	switch d.Header {
@@ -1204,8 +1208,18 @@ func genSpec(t *rapid.T, c *Case, kinds []string) Spec {
 		s.CtorName = gen.Pick(t, singleSpellings[s.Header], "spelling")
 	case rChain:
 		n := gen.IntR(t, 1, 4, "nsubs")
+		simple := []string{rRemote, rSingle, rSingle, rLeft, rRightNP, rCount, rRange}
 		for i := 0; i < n; i++ {
-			s.Subs = append(s.Subs, genSpec(t, c, []string{rRemote, rSingle, rSingle, rLeft, rRightNP, rCount, rRange}))
+			if rare(t, 1, 5, "nestedchain") {
+				// a chain is a resolver like any other: a member may itself be a chain, anywhere in the list
+				nested := Spec{Kind: rChain}
+				for j, m := 0, gen.IntR(t, 1, 3, "nnested"); j < m; j++ {
+					nested.Subs = append(nested.Subs, genSpec(t, c, simple))
+				}
+				s.Subs = append(s.Subs, nested)
+				continue
+			}
+			s.Subs = append(s.Subs, genSpec(t, c, simple))
 		}
 	default:
 		s.Header = gen.Pick(t, []string{hXFF, hFwd}, "listheader")
